@@ -118,8 +118,8 @@ CHECKS.update({
         "design_ref": "DESIGN.md §3 C10",
     },
     "C13": {
-        "technique": "static analysis: sibling-consistency lint over all reader loops (THIR arm tables: namespace/local-name matching in either operand order, comment arms, unconditional declaration arm, Start/Empty symmetry) + MIR taint from read_text to token sinks where only str::trim and verified wrappers of it sanitise",
-        "text": "Decides, per rewrite named by the property, the syntactic obligation on every reader loop: namespace-resolved local-name matching (prefix independence), comment skipping, declaration skipping at document level, Start/Empty symmetry per element (with a justification table for spellings that are rejected either way or lie outside the grammars), trimming of token-valued text. The property as stated does not hold: 14 empty-element-form asymmetries are listed as known findings (all reproduced); comment/declaration/whitespace defects were repaired. NOT decided: attribute order/quoting and inter-element whitespace (quick-xml tokenizer, assumed).",
+        "technique": "static analysis: sibling-consistency lint over all reader loops (THIR arm tables: namespace/local-name matching in either operand order, comment arms, unconditional declaration arm, Start/Empty symmetry or expand_empty_elements(true) on every reader construction) + MIR taint from read_text to token sinks where only str::trim and verified wrappers of it sanitise",
+        "text": "Decides, per rewrite named by the property, the syntactic obligation on every reader loop: namespace-resolved local-name matching (prefix independence), comment skipping, declaration skipping at document level, `<x/>` = `<x></x>` (either every NsReader the crates create expands empty elements and every recognised element has a Start arm, or Start/Empty symmetry per element with a justification table for spellings that are rejected either way or lie outside the grammars), trimming of token-valued text. The 14 empty-element-form asymmetries found in the design round were repaired (1be19b9), as were the comment/declaration/whitespace defects. NOT decided: attribute order/quoting and inter-element whitespace (quick-xml tokenizer, assumed).",
         "note": "Trusts quick-xml 0.31 event delivery and read_text semantics (raw slice).",
         "design_ref": "DESIGN.md §3 C13",
     },
